@@ -304,10 +304,13 @@ class Body:
         return self._defs
 
     def dbg_name(self, place):
-        for n, p in self.dbg:
-            if p == place:
-                return n
-        return None
+        m = self.__dict__.get("_dbg_map")
+        if m is None:
+            m = {}
+            for n, p in self.dbg:
+                m.setdefault(p, n)
+            self._dbg_map = m
+        return m.get(place)
 
     def assigns(self):
         live = self.live_blocks()
@@ -451,6 +454,18 @@ class Body:
         return self.place_root(op[1], depth, accessors)
 
     def place_root(self, place, depth=0, accessors=None):
+        if accessors is None:
+            cache = self.__dict__.setdefault("_root_cache", {})
+            hit = cache.get(place)
+            if hit is not None:
+                return hit
+            r = self._place_root(place, depth, accessors)
+            if "?deep" not in r:
+                cache[place] = r
+            return r
+        return self._place_root(place, depth, accessors)
+
+    def _place_root(self, place, depth=0, accessors=None):
         if depth > 40:
             return "?deep"
         local = place_local(place)
